@@ -8,7 +8,8 @@
   request : {"stations":[str], "has_matrix":bool, "cols":n, "M":[[bits]], "lims":[bits],
              "cids":[str], "c_net":[bits], "s_net":[bits], "c_alg":[bits], "s_alg":[bits],
              "voltages":[bits], "net_vt":bits|null, "net_rt":bits|null (null = constructor defaults, Gen.Consts), "vt":bits|null, "rt":bits|null,
-             "sched":[[str,[bits]]] | null, "S":[[bits]] | null, "x":[bits] | null}
+             "sched":[[str,[bits]]] | null, "S":[[bits]] | null, "x":[bits] | null,
+             "sel":{"names":[str]|null, "ts":[nat]|null} | null}
   The phasor coordinates are the implementation's own doubles (`np.exp(1j·deg2rad φ)` for the
   network side, `np.cos/np.sin(deg2rad φ)` for the algorithm side), computed by the harness.
 -/
@@ -81,6 +82,16 @@ def handle (j : Json) : Except String Json := do
       ("lin", jFss (rows.map fun row => ts.map fun t => linAggFixed row (col S t))),
       ("bound", jFs (lims.map fun lim => lim + tolOf vt rt lim))]
   | none => pure ()
+  -- constraint_current(constraints=…, time_indices=…)
+  match S?, (← getOpt j "sel" pure) with
+  | some S, some sel =>
+    let names? ← getOpt sel "names" (fun v => do let a ← asArr v; a.mapM (·.getStr?))
+    let ts? ← getOpt sel "ts" (fun v => do let a ← asArr v; a.mapM (·.getNat?))
+    let enc := fun (r : Except FeasErr (List (List Float))) =>
+      match r with | .ok t => jFss t | .error e => jS e.name
+    out := out ++ [("sel_sq", enc (constraintCurrentSq cids rows net.c net.s S names? ts?)),
+                   ("sel_lin", enc (constraintCurrentLin cids rows S names? ts?))]
+  | _, _ => pure ()
   -- algorithm side, 1-D
   match x?, infra with
   | some x, .ok i =>
